@@ -341,3 +341,46 @@ pub fn metadata_retry_after_fault() -> Result<(u64, u64), Violation> {
     }
     Ok((plans, fired_plans))
 }
+
+/// Every directory slot in turn: a directory of three sectors plus two entries (V3: 14
+/// entries, V4: 98) is built, then for each slot k the entry living there is removed and a
+/// new one created (which takes the freed slot), with the independent checker and a reopen
+/// of the raw bytes in both modes after every step. Covers code that depends on the index
+/// of the slot being reused (first slot of a directory sector etc.).
+pub fn dir_slot_sweep() -> Result<u64, Violation> {
+    let what = "directory slot sweep (remove + create on every slot of a 3-sector directory)";
+    let mut steps = 0u64;
+    for &version in &[3u8, 4u8] {
+        let per = if version == 3 { 4usize } else { 32 };
+        let n = 3 * per + 1; // + root = 3 sectors and two entries
+        let o = Oracles { dump_every: 0, final_reopen: true, ..Oracles::default() };
+        let mut eng = Engine::new(version, None, vec![], o).map_err(|f| huge_fail(what, f))?;
+        let name = |i: usize, gen: u32| format!("/e{:03}g{}", i, gen);
+        for i in 1..=n {
+            let op = if i % 9 == 4 { Op::CreateStorage { p: raw(name(i, 0)) } } else { Op::CreateStream { p: raw(name(i, 0)), data: DataSpec { len: (i as u32 * 29) % 150, seed: i as u8 } } };
+            eng.step(&op).map_err(|f| huge_fail(what, f))?;
+        }
+        for k in 1..=n {
+            let rm = if k % 9 == 4 { Op::RemoveStorage { p: raw(name(k, 0)) } } else { Op::RemoveStream { p: raw(name(k, 0)) } };
+            eng.step(&rm).map_err(|f| huge_fail(what, f))?;
+            let mk = if k % 2 == 0 { Op::CreateStorage { p: raw(name(k, 1)) } } else { Op::CreateStream { p: raw(name(k, 1)), data: DataSpec { len: 40 + k as u32, seed: 200 } } };
+            eng.step(&mk).map_err(|f| huge_fail(what, f))?;
+            run_checker(&mut eng, "slot sweep step").map_err(|f| huge_fail(what, f))?;
+            drop(eng.check_reopen(false, "slot sweep").map_err(|f| huge_fail(what, f))?);
+            drop(eng.check_reopen(true, "slot sweep").map_err(|f| huge_fail(what, f))?);
+            steps += 1;
+        }
+        // the same once more after a reopen (allocation state rebuilt from the file)
+        eng.step(&Op::Reopen { strict: true }).map_err(|f| huge_fail(what, f))?;
+        for k in (1..=n).step_by(per - 1) {
+            let rm = if k % 2 == 0 { Op::RemoveStorage { p: raw(name(k, 1)) } } else { Op::RemoveStream { p: raw(name(k, 1)) } };
+            eng.step(&rm).map_err(|f| huge_fail(what, f))?;
+            eng.step(&Op::CreateStream { p: raw(name(k, 2)), data: DataSpec { len: 10, seed: 7 } }).map_err(|f| huge_fail(what, f))?;
+            run_checker(&mut eng, "slot sweep step").map_err(|f| huge_fail(what, f))?;
+            drop(eng.check_reopen(true, "slot sweep").map_err(|f| huge_fail(what, f))?);
+            steps += 1;
+        }
+        eng.check_live_dump().map_err(|f| huge_fail(what, f))?;
+    }
+    Ok(steps)
+}
